@@ -24,6 +24,7 @@ def spectrum(kind, n):
     clus  : entries 1,2 (0,1 when n == 2) 5e-4 apart, the rest as sep
     deg2  : entries 1,2 (0,1 when n == 2) exactly equal
     deg3  : entries 1,2,3 (0..2 when n == 3) exactly equal            (n >= 3)
+    deg0  : deg2 shifted so that the coinciding pair sits at 0 (a two-dimensional null space)
     neg   : all negative, separated
     pos   : all positive, separated                                    (usable for A = B^H B)
     pdeg2 / pdeg3 / pclus : positive versions of deg2 / deg3 / clus
@@ -45,6 +46,10 @@ def spectrum(kind, n):
         lam[j + 1] = lam[j] + 5e-4
     elif kind == "deg2":
         lam[j + 1] = lam[j]
+    elif kind == "deg0":
+        lam[j + 1] = lam[j]
+        s0 = lam[j]
+        lam = [v - s0 for v in lam]
     elif kind == "deg3":
         if n < 3:
             raise ValueError("deg3 needs n >= 3")
